@@ -2,8 +2,10 @@
     Statements only; proofs in proofs/ReaderProofs.v.
     PARTIAL.  Proved for all inputs: printed integers (any size, either sign) and printed strings
     (any ASCII content, with the escapes wal_str writes) read back as themselves, in every
-    position.  The structural round trip for arbitrary nested expressions and the shorthand/long
-    form equalities for every operand are decided by the differential check on generated
+    position; the STRUCTURAL round trip (end of this file) for every expression built from integers,
+    strings, plain symbols, booleans, operators and nested lists.  Not proved: floats, expressions the
+    printer writes in a special form (quote forms, a@b, {array}), escaped identifiers, and the
+    shorthand/long form equalities for every operand: decided by the differential check on generated
     expressions (and checked below on representative instances by computation in the model). *)
 From WalModel Require Import Reader.
 From WalModel.proofs Require Import CsvProofs ReaderProofs.
@@ -51,3 +53,45 @@ Example roundtrip_examples :
                   WL [VOp OAdd; VStr "a\b"; WL []]] ->
              match wal_str0 v with Some t => read_sexpr t = ROk v "" | None => False end).
 Proof. intros v H. repeat (destruct H as [<-|H]; [vm_compute; reflexivity|]). destruct H. Qed.
+
+(** * structural round trip (proofs/RoundTrip.v)
+    The class [simple]: integers of at most 4000 digits, strings over ASCII, plain symbols (symbol-shaped text
+    that is not a keyword or operator name), booleans, all 106 operators, and reader lists of such, nested
+    arbitrarily — except lists the printer writes in a special form (quote/quasiquote/unquote forms,
+    {array ...}, and (reval a b) which it writes a@b).  For every expression of the class the printer's text
+    reads back as the expression itself. *)
+From WalModel.proofs Require Import RoundTrip.
+
+Theorem printed_expression_reads_back : forall e, simple e = true ->
+  wal_str0 e = Some (show e) /\ read_sexpr (show e) = ROk e EmptyString.
+Proof. exact print_read_roundtrip. Qed.
+Print Assumptions printed_expression_reads_back.
+
+(** ... and in every position: followed by a space, a closing bracket or the end of the text *)
+Theorem printed_expression_reads_back_in_context : forall n e, (vsize e <= n)%nat -> simple e = true ->
+  forall f rest, (5 * vsize e + 4 <= f)%nat -> delim rest -> p_sexpr f (show e ++ rest) = ROk e (inter rest).
+Proof. exact roundtrip_in_context. Qed.
+Print Assumptions printed_expression_reads_back_in_context.
+
+Theorem the_class_is : forall e, simple e =
+  match e with
+  | VInt z => (slen (numeral 10 (Z.abs z)) <=? 4000)%Z
+  | VStr s => sall plain_char s
+  | VSym n None => plain_sym n
+  | VBool _ => true
+  | VOp _ => true
+  | VList true l => forallb simple l && head_ok l
+  | _ => false
+  end.
+Proof. intros e. destruct e; reflexivity. Qed.
+Print Assumptions the_class_is.
+
+(** every operator name reads back as the operator, wherever it stands *)
+Theorem operator_names_read_back : forall g o rest, delim rest -> p_primary (S g) (op_name o ++ rest) = ROk (VOp o) rest.
+Proof. exact primary_op. Qed.
+Print Assumptions operator_names_read_back.
+
+Example a_program_in_the_class :
+  let e := WL [VOp ODefine; VSym "x" None; WL [VOp OAdd; VInt 1; VInt (-20); VStr "a b"; WL []; VBool true]] in
+  simple e = true /\ show e = "(define x (+ 1 -20 ""a b"" () true))"%string.
+Proof. split; reflexivity. Qed.
